@@ -20,6 +20,7 @@ import (
 	"net/http"
 	"net/http/httptest"
 	"net/url"
+	"os"
 	"strconv"
 	"strings"
 	"sync"
@@ -70,8 +71,9 @@ type OCase struct {
 // ---------------------------------------------------------------- a registry whose samples service records what it is sent
 
 type recSvc struct {
-	mu   *sync.Mutex
-	rows *[]ORow
+	mu     *sync.Mutex
+	rows   *[]ORow
+	series *[]string // the label documents of the time_series rows handed over
 }
 
 func (s recSvc) Run()  {}
@@ -88,6 +90,11 @@ func (s recSvc) Request(req helpers.SizeGetter, insertMode int) *promise.Promise
 		}
 		s.mu.Unlock()
 	}
+	if d, ok := req.(*model.TimeSeriesData); ok && s.series != nil {
+		s.mu.Lock()
+		*s.series = append(*s.series, d.MLabels...)
+		s.mu.Unlock()
+	}
 	return promise.Fulfilled[uint32](nil, 0)
 }
 func (s recSvc) Ping() (time.Time, error) { return time.Now(), nil }
@@ -97,10 +104,10 @@ func (s recSvc) Init()                    {}
 func (s recSvc) PlanFlush()               {}
 
 type recRegistry struct {
-	spl recSvc
+	spl, ts recSvc
 }
 
-func (r recRegistry) GetTimeSeriesService(string) (service.IInsertServiceV2, error)    { return recSvc{}, nil }
+func (r recRegistry) GetTimeSeriesService(string) (service.IInsertServiceV2, error)    { return r.ts, nil }
 func (r recRegistry) GetSamplesService(string) (service.IInsertServiceV2, error)       { return r.spl, nil }
 func (r recRegistry) GetMetricsService(string) (service.IInsertServiceV2, error)       { return recSvc{}, nil }
 func (r recRegistry) GetSpansService(string) (service.IInsertServiceV2, error)         { return recSvc{}, nil }
@@ -110,15 +117,16 @@ func (r recRegistry) Run()                                                      
 func (r recRegistry) Stop()                                                             {}
 
 var (
-	optMu   sync.Mutex
-	optRows []ORow
+	optMu     sync.Mutex
+	optRows   []ORow
+	optSeries []string
 )
 
 func reqoptsSetup() {
 	config.Cloki.Setting.SYSTEM_SETTINGS.RetryAttempts = 1
 	config.Cloki.Setting.SYSTEM_SETTINGS.RetryTimeoutS = 0
 	helpers.SetGlobalLimit(256 << 20)
-	controllerv1.Registry = recRegistry{spl: recSvc{mu: &optMu, rows: &optRows}}
+	controllerv1.Registry = recRegistry{spl: recSvc{mu: &optMu, rows: &optRows}, ts: recSvc{mu: &optMu, series: &optSeries}}
 	controllerv1.FPCache = numbercache.NewCache[uint64](time.Minute*30, func(val uint64) []byte {
 		return unsafe.Slice((*byte)(unsafe.Pointer(&val)), 8)
 	}, map[string]*model.DataDatabasesMap{"n1": {}})
@@ -305,8 +313,88 @@ func coqOCase(c *OCase) string {
 		optz(c.HasWantTTL, cn(uint64(c.WantTTL))), optz(c.HasWantPrec, cz(c.WantPrec)), wantRows)
 }
 
+// ---------------------------------------------------------------- the ddsource parameter of the Cloudflare-Datadog route
+
+type DCase struct {
+	ID     int    `json:"id"`
+	Class  string `json:"class"`
+	HasQ   bool   `json:"has_q"`
+	Query  Str    `json:"query"`
+	Script Str    `json:"script"` // ScriptName of the one line: a label set of its own per case (the series row is announced once per label set)
+	Want   Str    `json:"want"`
+	Status int    `json:"status"`
+	HasObs bool   `json:"has_obs"`
+	Obs    Str    `json:"obs"`
+	Series []string `json:"series"`
+	Panic  string `json:"panic,omitempty"`
+	Coq    string `json:"coq,omitempty"`
+}
+
+func genDCase(r *rand.Rand, i int) DCase {
+	c := DCase{ID: i, Script: Str(fmt.Sprintf("worker-%d-%d", i, r.Intn(1000000)))}
+	switch k := r.Intn(10); {
+	case k < 2:
+		c.Class, c.Want = "ddsource-route/absent", "unknown"
+	case k < 4:
+		c.Class, c.HasQ, c.Query, c.Want = "ddsource-route/empty", true, "", "unknown"
+	default:
+		v := []string{"cloudflare", "cf-worker", "unknown", "Unknown", "nginx", "a b", "a&b=c", "x/y?z", "ünïcode", "名前", "%41", "+", " ", "0", "null", "ddsource", "a,b", "\"quoted\"", "back\\slash", "new\nline"}[r.Intn(20)]
+		c.Class, c.HasQ, c.Query, c.Want = "ddsource-route/written", true, Str(v), Str(v)
+	}
+	return c
+}
+
+func runDCase(c *DCase) {
+	defer func() {
+		if e := recover(); e != nil {
+			c.Panic = fmt.Sprint(e)
+		}
+		obs := "None"
+		if c.HasObs {
+			obs = "(Some " + cstr(c.Obs) + ")"
+		}
+		c.Coq = fmt.Sprintf("DC %d %s %d %s (Some %s)", c.ID, cstr(c.Query), c.Status, obs, cstr(c.Want))
+	}()
+	c.HasObs, c.Obs, c.Status, c.Series = false, "", 0, []string{}
+	target := "/cf/v1/insert"
+	if c.HasQ {
+		target += "?" + url.Values{"ddsource": {string(c.Query)}}.Encode()
+	}
+	line, _ := json.Marshal(map[string]any{"EventTimestampMs": 1700000000000 + int64(c.ID), "ScriptName": string(c.Script), "Outcome": "ok"})
+	req := httptest.NewRequest("POST", target, bytes.NewReader(append(line, '\n')))
+	w := httptest.NewRecorder()
+	optMu.Lock()
+	optSeries = optSeries[:0]
+	optMu.Unlock()
+	controllerv1.PushCfDatadogV2(controllerv1.NewMiddlewareConfig(controllerv1.WithOverallContextMiddleware))(w, req)
+	c.Status = w.Code
+	optMu.Lock()
+	c.Series = append(c.Series, optSeries...)
+	optMu.Unlock()
+	for _, doc := range c.Series {
+		var m map[string]string
+		if err := json.Unmarshal([]byte(doc), &m); err != nil {
+			panic("series label document is no JSON object of strings: " + doc)
+		}
+		if v, ok := m["ddsource"]; ok && !c.HasObs {
+			c.HasObs, c.Obs = true, Str(v)
+		}
+	}
+}
+
 func reqoptsMain(f *hx.Flags) {
 	reqoptsSetup()
+	if os.Getenv("C03_REQOPTS") == "ddsource" {
+		out := hx.OpenOut(f.Out)
+		defer out.Close()
+		r := hx.Rand(f.Seed)
+		for i := 0; i < f.N; i++ {
+			c := genDCase(r, i)
+			runDCase(&c)
+			out.Put(c)
+		}
+		return
+	}
 	out := hx.OpenOut(f.Out)
 	defer out.Close()
 	if f.Cases != "" {
